@@ -2742,6 +2742,8 @@ class SparseLogicalVector:
         elif index.__class__ is slice:
             if index == open_slice:
                 if value is self: return
+                if vd == 1 and len(value) > self.size:
+                    raise ValueError('shape mismatch between arrays')
                 if vd > 1:
                     raise IndexError(
                         f'cannot broadcast {vd}-d array on to 1-d sparse array'
